@@ -6,7 +6,8 @@ EXTENDS Naturals, Sequences, FiniteSets, TLC, Json
 Rpcs == {"GetVersion", "GetBlock", "GetBlockTime", "GetTransaction", "StreamBlocks", "StreamTransactions", "Get"}
 SlotC == {"archived", "skipped", "zero", "huge", "other-epoch"}
 SigC == {"nil", "short", "archived", "absent", "long"}
-EndC == {"absent", "after", "before-start", "huge"}
+\* epochs-before-start: the range is reversed across several epochs (end 3 epochs before start)
+EndC == {"absent", "after", "before-start", "epochs-before-start", "huge"}
 FiltC == {"nil", "empty", "vote-only", "failed-only", "both-false", "both-true"}
 AcctC == {"none", "valid", "malformed", "emptystring", "valid+malformed"}
 GetC == {"nil-oneof", "version", "block", "blocktime", "transaction", "mixed"}
